@@ -267,6 +267,8 @@ def body(chk, db, cfgname):
         st = ("param", g.params[0]["d"], g.params[0]["n"])
         S_ = fld(HH + "::S")
         rets = [j for j, n in g.walk(g.body) if n["k"] == "return"]
+        if len(rets) != 1:
+            raise AnalysisBroken("Hamiltonian::getEigenValue: expected one return (several returns are not analysed)")
         k = gctx.key(g.nodes[rets[0]]["sub"])
         want_obj = [("mcall", HH + "::getPart", THIS, ("mcall", SC + "getBlockNumber", S_, st)), ("un", "*", ("op", "[]", fld(HH + "::parts"), ("mcall", SC + "getBlockNumber", S_, st)))]
         good = k[0] == "mcall" and k[1] == HP + "::getEigenValue" and deconv(k[2]) in [deconv(x) for x in want_obj] and k[3] == ("mcall", SC + "getInnerState", S_, st)
